@@ -414,6 +414,135 @@ vf::Result check_ar(const icase::ICase& c) {
     return vf::Result::pass();
 }
 
+// ---- rnstep: every form that names its address register(s) directly -------------------------------------------------------------
+struct RnPair {
+    unsigned unit;
+    raddr::Step step;
+};
+// (register, step) pairs of a form: Rn / R0123 / R45 followed by a step operand, or the implicit r0 of the max/min forms
+bool rn_pairs(const optable::Info& i, std::vector<RnPair>& out) {
+    out.clear();
+    if (i.entry < 0 || i.name == "norm") // norm steps its register only when it shifts: state dependent, left to C01
+        return false;
+    for (size_t k = 0; k + 1 < i.operands.size(); ++k) {
+        const std::string& t = i.operands[k].type;
+        if ((t == "Rn" || t == "R0123" || t == "R45") && i.operands[k + 1].type == "StepValue#4") {
+            unsigned v = (unsigned)i.operands[k].value;
+            unsigned unit = t == "Rn" ? (v & 7) : (t == "R0123" ? (v & 3) : 4 + (v & 1));
+            out.push_back({unit, (raddr::Step)(i.operands[k + 1].value & 3)});
+        }
+    }
+    if (out.empty() && i.name.size() > 3 && i.name.compare(i.name.size() - 3, 3, "_r0") == 0)
+        for (auto& o : i.operands)
+            if (o.type == "StepValue#4")
+                out.push_back({0, (raddr::Step)(o.value & 3)});
+    return !out.empty();
+}
+const std::vector<std::vector<uint16_t>>& rn_strata() {
+    static std::vector<std::vector<uint16_t>> g = [] {
+        std::map<std::string, std::vector<uint16_t>> m;
+        std::vector<RnPair> tmp;
+        for (uint32_t w = 0; w < 0x10000; ++w) {
+            const optable::Info& i = optable::info((uint16_t)w);
+            if (rn_pairs(i, tmp))
+                m[i.form].push_back((uint16_t)w);
+        }
+        std::vector<std::vector<uint16_t>> v;
+        for (auto& kv : m)
+            v.push_back(kv.second);
+        return v;
+    }();
+    return g;
+}
+icase::ICase build_rn(const Seed& sd) {
+    icase::ICase c = build(sd);
+    const auto& grp = rn_strata()[(sd.pick >> 16) % rn_strata().size()];
+    c.opcode = grp[(sd.pick & 0xFFFF) % grp.size()];
+    vf::Stream s(sd.seed ^ 0x7272);
+    for (int i = 0; i < 3; ++i)
+        c.st[flat::F_ip + i] = 0;
+    c.st[flat::F_ipv] = 0;
+    c.pokes = icase::gen_pokes(s, c.st, c.opcode, c.expansion);
+    return c;
+}
+vf::Result check_rn(const icase::ICase& c) {
+    const optable::Info info = optable::decode(c.opcode, c.expansion);
+    std::vector<RnPair> pairs;
+    if (!rn_pairs(info, pairs)) {
+        vf::note(0, false);
+        return vf::Result::pass();
+    }
+    int count[8] = {0};
+    for (auto& p : pairs)
+        ++count[p.unit];
+    // a destination that is itself an address register hides the step of that register
+    int dest_unit = -1;
+    if (!info.operands.empty() && info.operands.back().type == "Register") {
+        long v = info.operands.back().value;
+        dest_unit = v <= 5 ? (int)v : (v == 6 ? 7 : -1);
+    }
+    if (info.name == "mov_r6")
+        dest_unit = 6; // r6 := [Rn]
+    const bool dmod = info.name.size() > 5 && info.name.compare(info.name.size() - 5, 5, "_dmod") == 0;
+    for (auto& p : pairs)
+        if (raddr::access_address(c.st, p.unit, (uint16_t)c.st[flat::F_r + p.unit]) == 0xFFFF) { // the MMIO cell of this core
+            vf::note(0, false);
+            return vf::Result::pass();
+        }
+    icase::IResult r = sut().exec(c);
+    if (r.outcome != 0) {
+        vf::klass("rnstep: instruction did not complete (unimplemented / assert): no claim");
+        vf::note(0, false);
+        return vf::Result::pass();
+    }
+    std::string where = info.form + " op=" + vf::hex(c.opcode);
+    bool changed = false, in_model = false;
+    for (auto& p : pairs) {
+        if (count[p.unit] > 1 || (int)p.unit == dest_unit)
+            continue;
+        uint16_t pre = (uint16_t)c.st[flat::F_r + p.unit], post = (uint16_t)r.after[flat::F_r + p.unit];
+        std::optional<uint16_t> want = raddr::step(c.st, p.unit, pre, p.step, dmod);
+        if (!want)
+            continue;
+        in_model = true;
+        if (post != *want)
+            return vf::Result::fail("C10:rnstep:" + info.name + ":" + std::to_string((int)p.step),
+                                    "r" + std::to_string(p.unit) + " = " + vf::hex(pre) + " is " + vf::hex(post) + " after the step but must be " + vf::hex(*want) +
+                                        " [step " + std::to_string((int)p.step) + " m=" + vf::hex(c.st[flat::F_m + p.unit]) + " br=" + vf::hex(c.st[flat::F_br + p.unit]) +
+                                        " cmd=" + vf::hex(c.st[flat::F_cmd]) + "] for " + where);
+        if (post != pre)
+            changed = true;
+    }
+    // data cells accessed: the pre-step value of a named register, bit-reversed where configured (program-memory forms excluded)
+    bool repeated = false;
+    for (int u = 0; u < 8; ++u)
+        if (count[u] > 1)
+            repeated = true;
+    if (!repeated && info.name != "movp" && info.name != "movd" && info.name.rfind("modr", 0) != 0) {
+        size_t idx = 0, nfetch = 1 + (info.expanded ? 1 : 0);
+        for (auto& a : r.log) {
+            if (idx++ < nfetch || a.addr < 0x20000)
+                continue;
+            uint16_t da = (uint16_t)(a.addr - 0x20000);
+            bool ok = false;
+            for (auto& p : pairs)
+                if (da == raddr::access_address(c.st, p.unit, (uint16_t)c.st[flat::F_r + p.unit]))
+                    ok = true;
+            if (!ok)
+                return vf::Result::fail("C10:rnaddress:" + info.name, std::string(a.write ? "write to" : "read of") + " data address " + vf::hex(da) +
+                                                                          " which is not the (bit-reversed where configured) pre-step value of a named register (r" +
+                                                                          std::to_string(pairs[0].unit) + "=" + vf::hex(c.st[flat::F_r + pairs[0].unit]) + " br=" +
+                                                                          vf::hex(c.st[flat::F_br + pairs[0].unit]) + " m=" + vf::hex(c.st[flat::F_m + pairs[0].unit]) +
+                                                                          ") for " + where);
+            in_model = true;
+            vf::klass((c.st[flat::F_br + pairs[0].unit] && !c.st[flat::F_m + pairs[0].unit]) ? "rnstep: bit-reversed access" : "rnstep: plain access");
+        }
+    }
+    uint64_t h = vf::hash_bytes(c.st.v, sizeof c.st.v, c.opcode);
+    vf::note(h, (changed || in_model));
+    return vf::Result::pass();
+}
+
 // ---- walk ----------------------------------------------------------------------------------------------------------
 struct Walk {
     unsigned unit = 0, mod = 0, cmd = 0, start_off = 0;
@@ -519,7 +648,7 @@ int main(int argc, char** argv) {
     p.encode = icase::encode;
     p.decode = icase::decode;
     p.minimise = icase::minimise;
-    p.share = 0.62;
+    p.share = 0.52;
     vf::run(p);
 
     vf::Property<icase::ICase> pa;
@@ -533,8 +662,22 @@ int main(int argc, char** argv) {
     pa.encode = icase::encode;
     pa.decode = icase::decode;
     pa.minimise = icase::minimise;
-    pa.share = 0.35;
+    pa.share = 0.25;
     vf::run(pa);
+
+    vf::Property<icase::ICase> pr;
+    pr.name = "rn_step";
+    pr.gen = [] {
+        using namespace rc;
+        return gen::map(gen::tuple(gen::resize(100, gen::arbitrary<uint64_t>()), gen::resize(100, gen::arbitrary<uint32_t>()), vf::u16b()),
+                        [](std::tuple<uint64_t, uint32_t, uint16_t> t) { return build_rn(Seed{std::get<0>(t), std::get<1>(t), std::get<2>(t)}); });
+    };
+    pr.check = check_rn;
+    pr.encode = icase::encode;
+    pr.decode = icase::decode;
+    pr.minimise = icase::minimise;
+    pr.share = 0.2;
+    vf::run(pr);
 
     vf::Property<Walk> q;
     q.name = "modulo_walk";
